@@ -19,6 +19,9 @@
     translate_format_id_brackets msg_identity_brackets msg_identity_elem_brackets brackets_of_clean
     placeholder_text_straddles msg_element_first_child_mismatch
     code_call_reported code_literal_call_reported code_reported_is_call code_reported_exactly nested_call_was_missed
+    code_call_sites_extracted code_list_is_call_sites
+    lookups_subset_extract_args identity_transparent_msg_skip skip_generalises_reorder
+    branch_directive_ids_mismatch
 -/
 import Genshi.Lemmas.I18nTree
 import Genshi.Lemmas.I18nStarts
@@ -32,6 +35,8 @@ import Genshi.Lemmas.I18nCode
 import Genshi.Lemmas.I18nPyExpr
 import Genshi.Lemmas.I18nPassEq
 import Genshi.Lemmas.I18nPassReorder
+import Genshi.Lemmas.I18nPyStream
+import Genshi.Lemmas.I18nPassSkip
 import Genshi.Model.I18nExtract
 namespace Genshi.Props.C19
 open Genshi Genshi.I18n
@@ -187,6 +192,39 @@ theorem lookups_subset_extract_partial (cfg : Cfg) (ctx : Ctx) (s : TStream) (h 
       (∀ l ∈ lookups cfg ctx true true s, hasLetter l.msgid = true → l.msgid ∈ idsOf ms) ∧
       (∀ id ∈ msgIdsW s, id ∈ idsOf ms) :=
   lookups_subset_extract_wide cfg ctx s h
+
+/-- **lookups_subset_extract with every argument of the two entry points quantified** (wave 4).
+    `lookups_subset_extract_partial` fixes the arguments at their defaults; here
+      * `Translator.__call__(stream, ctxt, translate_text=tt, translate_attrs=ta)` — both flags and
+        the template context (`_i18n.domain` / `_i18n.context` frames) arbitrary,
+      * `Translator.extract(stream, search_text=st, comment_stack=cs, context_stack=xs)` — any
+        comment and context stacks (a non-empty context stack turns every message into its
+        `pgettext` / `npgettext` form: `contextify`), `search_text` either `True` or — only when
+        the instance has `extract_text=False`, where the pass looks no text up — `False`
+        (`extractWith`; correspondence stream `extractw`),
+      * the instance: `ignore_tags`, `include_attrs`, `extract_text` arbitrary (`cfg`), literal
+        `xml:lang` handled inside (`excluded`).
+    `Translator.setup` only registers the filter and the directives (exercised by the oracle). -/
+theorem lookups_subset_extract_args (cfg : Cfg) (ctx : Ctx) (s : TStream) (h : WideList cfg s)
+    (tt ta st : Bool) (cs xs : List Str) (hst : st = true ∨ cfg.extractText = false) :
+    ∃ ms, extractWith cfg st cs xs s = .ok ms ∧
+      (∀ l ∈ lookups cfg ctx tt ta s, hasLetter l.msgid = true → l.msgid ∈ idsOf ms) ∧
+      (∀ id ∈ msgIdsW s, id ∈ idsOf ms) :=
+  Genshi.I18n.lookups_subset_extract_args cfg ctx s h tt ta st cs xs hst
+
+/-- `<p title="Tip">Hi</p>` extracted with `comment_stack=['c']`, `context_stack=['m']`: the text
+    comes out as `pgettext('m', 'Hi')` with the comment, the attribute plain; the pass (under a
+    domain frame, attributes only) looks `Tip` up -/
+example :
+    okMsgList [.start ⟨[], ['p']⟩ [(⟨[], ['t','i','t','l','e']⟩, .str ['T','i','p'])], .text ['H','i'], .end_ ⟨[], ['p']⟩] = true ∧
+    extractWith Cfg.default true [['c']] [['m']]
+      [.start ⟨[], ['p']⟩ [(⟨[], ['t','i','t','l','e']⟩, .str ['T','i','p'])], .text ['H','i'], .end_ ⟨[], ['p']⟩] =
+      .ok [⟨none, .one (some ['T','i','p']), []⟩,
+           ⟨some ['p','g','e','t','t','e','x','t'], .many [some ['m'], some ['H','i']], [['c']]⟩] ∧
+    (lookups Cfg.default [.domain ['d']] false true
+      [.start ⟨[], ['p']⟩ [(⟨[], ['t','i','t','l','e']⟩, .str ['T','i','p'])], .text ['H','i'], .end_ ⟨[], ['p']⟩]).map
+        Lookup.msgid = [['T','i','p']] := by
+  refine ⟨by decide +kernel, by decide +kernel, by decide +kernel⟩
 
 /-- the streams of the first version of the theorem — message directives alone on their
     element, content without directive-carrying elements (`okMsgList`, decidable) — are among them -/
@@ -398,6 +436,61 @@ theorem nested_call_was_missed :
       [⟨['n','g','e','t','t','e','x','t'], .many [some ['o','n','e'], some ['m','a','n','y'], none]⟩,
        ⟨['_'], .one (some ['U','n','k','n','o','w','n'])⟩] :=
   Genshi.I18n.nested_call_was_missed
+
+/-! ### composition: the call sites of template code (wave 4)
+
+`PStream` (`Model/I18nPyStream.lean`) is the template stream with the syntax tree (`PyExpr`) in the
+place of every piece of code — EXPR / EXEC events, expressions inside interpolated attribute
+values; `extractP cfg gf s` is `Translator(cfg…).extract(stream, gettext_functions=gf)`: where
+`Translator.extract` meets code it calls `extract_from_code(code, gettext_functions)` (`lowerList`).
+Tie: correspondence stream `extractp` (the harness sends the trees genshi built, `code.ast`, and
+the `gettext_functions` argument; nothing the real `extract_from_code` computed reaches the model). -/
+
+/-- **every gettext call site of the template code is extracted**, for every configuration and every
+    `gettext_functions` argument `gf`: extraction returns, and for every piece of code `e` of the
+    template (`codeExprs`: EXPR / EXEC events at any depth of directive nesting, interpolated
+    attribute values of all elements — excluded ones included —, expressions and attributes inside
+    the content of a plain `i18n:msg`) and every call `f(args…, kw=…)` of a plain name `f ∈ gf`
+    occurring ANYWHERE in `e` (nested in the arguments of another gettext call, in a keyword value, in
+    any other syntax), the message `(f, strings, [])` is extracted, where `strings` has one entry per
+    POSITIONAL argument (the text of a string / utf-8 bytes literal, `None` for a non-literal; a single
+    entry bare, otherwise a tuple: `argVal`); keyword arguments contribute no entry. -/
+theorem code_call_sites_extracted (cfg : Cfg) (gf : List Str) (s : PStream)
+    (h : okMsgList (lowerList gf s) = true) :
+    ∃ ms, extractP cfg gf s = .ok ms ∧
+      ∀ e ∈ codeExprs s, ∀ (f : Str) (args kws : List PyExpr),
+        SubExpr (.call (.name f) args kws) e → f ∈ gf → (⟨some f, argVal args, []⟩ : Message) ∈ ms :=
+  Genshi.I18n.code_call_sites_extracted cfg gf s h
+
+/-- what the code contributes to the extracted messages is exactly the report of its call sites, in
+    source order: `codeList` of the stream `Translator.extract` works on = the gettext calls
+    (`gettextCalls`: calls of a plain name in `gf`, pre-order, at any depth) of every piece of code -/
+theorem code_list_is_call_sites (cfg : Cfg) (gf : List Str) (s : PStream) :
+    codeList cfg (lowerList gf s) = (codeExprs s).flatMap fun e => (gettextCalls gf e).map callReport :=
+  Genshi.I18n.codeList_lower_calls cfg gf s
+
+/-- `<p i18n:msg="n">Hi ${ngettext('a', 'b', len(_('U')))}</p><script type="${tr(x, k=_('A'))}">${_(s1)}</script>`
+    with `gettext_functions = ('_', 'ngettext')`: the stream is one the theorem speaks about; the
+    pieces of code are the three expressions; the nested `_('U')`, the `_('A')` in a keyword value
+    and the non-literal `_(s1)` are call sites, reported as `'U'`, `'A'` and `None` -/
+example :
+    let gf : List Str := [['_'], ['n','g','e','t','t','e','x','t']]
+    let e1 : PyExpr := .call (.name ['n','g','e','t','t','e','x','t'])
+        [.str ['a'], .str ['b'], .call (.name ['l','e','n']) [.call (.name ['_']) [.str ['U']] []] []] []
+    let e2 : PyExpr := .call (.name ['t','r']) [.name ['x']] [.call (.name ['_']) [.str ['A']] []]
+    let e3 : PyExpr := .call (.name ['_']) [.name ['s','1']] []
+    let s : PStream :=
+      [.sub [.msg [['n']]] [.start ⟨[], ['p']⟩ [], .text ['H','i',' '], .expr 0 e1, .end_ ⟨[], ['p']⟩],
+       .start ⟨[], ['s','c','r','i','p','t']⟩ [(⟨[], ['t','y','p','e']⟩, .parts [.expr e2])],
+       .expr 1 e3, .end_ ⟨[], ['s','c','r','i','p','t']⟩]
+    okMsgList (lowerList gf s) = true ∧ codeExprs s = [e1, e2, e3] ∧
+    extractP Cfg.default gf s = .ok
+      [⟨some ['n','g','e','t','t','e','x','t'], .many [some ['a'], some ['b'], none], []⟩,
+       ⟨some ['_'], .one (some ['U']), []⟩,
+       ⟨none, .one (some ['H','i',' ','%','(','n',')','s']), []⟩,
+       ⟨some ['_'], .one (some ['A']), []⟩,
+       ⟨some ['_'], .one none, []⟩] := by
+  refine ⟨by decide +kernel, rfl, by decide +kernel⟩
 
 /-- **lookups_subset_extract, message directives.**  For `<t i18n:msg="ps">content</t>` whose
     content holds no nested directive — any events otherwise, any catalogue, context and skip
@@ -850,6 +943,70 @@ example :
        .sub [.domain ['d'], .ctxt ['m'], .other ['i','f']] [.start ⟨[], ['b']⟩ [], .expr 0 [], .end_ ⟨[], ['b']⟩],
        .text ['!']] := by
   refine ⟨by decide +kernel, by decide +kernel, by decide +kernel, by decide +kernel, by decide +kernel⟩
+
+/-- **identity_transparent, pass and directive together, in one statement** (wave 4: the skip
+    counter read on the tree).  `identity_transparent_msg_sub` allows excluded elements inside
+    the message but no `i18n:domain` / `i18n:ctxt` on its directive-carrying elements;
+    `identity_transparent_msg_reorder` allows those but no excluded element.  Here both: inside
+    an element excluded by `ignore_tags` or a literal `xml:lang` the pass hands every event on
+    untouched — SUB events with their directive lists included (`trListM_skip`: a forest passes,
+    the counter comes back) —, everywhere else it re-orders the directive lists and changes
+    nothing (`trListM_idX`); on the forest of the message that is `reordXM cfg`.  The message
+    directive then returns the content unchanged up to the white space at the edges of the
+    message and the chunking of text.  (`if excluded cfg t a`: the element carrying `i18n:msg` may
+    itself be excluded — finding C19-msg-in-excluded: it is still translated — and then nothing
+    inside is re-ordered.) -/
+theorem identity_transparent_msg_skip (cfg : Cfg) (ctx : Ctx) (ta : Bool) (t : QName) (a : TAttrs) (F : List MNode)
+    (extra : List Str) (hc : cleanM F = true) (hna : deepNoAdjM F = true) (hnd : (namesM F).Nodup)
+    (hso : subsOKM false F = true)
+    (hattr : cleanList cfg (.start t a :: (flattenM F ++ [.end_ t])) = true) :
+    msgGenerate (namesM F ++ extra) (fun s => s)
+        (trList cfg Catalog.id ctx false ta 0 (.start t a :: (flattenM F ++ [.end_ t]))) =
+      .ok (.start t a :: (coalesce (flattenM (trimF (if excluded cfg t a then F else reordXM cfg F))) ++ [.end_ t])) :=
+  pass_then_msg_identity_skip cfg ctx ta t a F extra hc hna hnd hso hattr
+
+/-- it contains `identity_transparent_msg_reorder`: without excluded elements `reordXM` is `reordM` -/
+theorem skip_generalises_reorder (cfg : Cfg) (F : List MNode) (h : noExclList cfg (flattenM F) = true) :
+    reordXM cfg F = reordM F :=
+  reordXM_eq_reordM cfg F h
+
+/-- `<p i18n:msg="n"> Hi, <b py:if="c" i18n:ctxt="m">${n}</b><script><i py:if="c" i18n:ctxt="m">x</i></script>! </p>`:
+    the directive list outside the ignored `script` is re-ordered, the one inside is not -/
+example :
+    let F : List MNode :=
+      [.text [' ','H','i',',',' '], .elem (some [.other ['i','f'], .ctxt ['m']]) ⟨[], ['b']⟩ [] [.expr ['n'] 0 []],
+       .elem none ⟨[], ['s','c','r','i','p','t']⟩ [] [.elem (some [.other ['i','f'], .ctxt ['m']]) ⟨[], ['i']⟩ [] [.text ['x']]],
+       .text ['!',' ']]
+    cleanM F = true ∧ deepNoAdjM F = true ∧ subsOKM false F = true ∧
+    cleanList Cfg.default (.start ⟨[], ['p']⟩ [] :: (flattenM F ++ [.end_ ⟨[], ['p']⟩])) = true ∧
+    noExclList Cfg.default (flattenM F) = false ∧
+    coalesce (flattenM (trimF (reordXM Cfg.default F))) =
+      [.text ['H','i',',',' '],
+       .sub [.ctxt ['m'], .other ['i','f']] [.start ⟨[], ['b']⟩ [], .expr 0 [], .end_ ⟨[], ['b']⟩],
+       .start ⟨[], ['s','c','r','i','p','t']⟩ [],
+       .sub [.other ['i','f'], .ctxt ['m']] [.start ⟨[], ['i']⟩ [], .text ['x'], .end_ ⟨[], ['i']⟩],
+       .end_ ⟨[], ['s','c','r','i','p','t']⟩,
+       .text ['!']] := by
+  refine ⟨by decide +kernel, by decide +kernel, by decide +kernel, by decide +kernel, by decide +kernel, by decide +kernel⟩
+
+/-- finding C19-branch-directives (wave 4): a control-flow directive on a choose BRANCH.
+    `<div i18n:choose="n"><p i18n:singular="">one</p><p i18n:plural="" py:if="c">many</p></div>`:
+    the loop of `ChooseDirective.extract` over the directives of the branch's SUB event lets the
+    `py:if` append the whole branch to BOTH buffers as a nested element, so extraction reports the
+    ids `one[1:many]` / `many[1:many]`, while rendering hands `one` / `many` to `ngettext`
+    (`ChooseDirective.__call__` applies the directives of a branch in order).  The streams of
+    `lookups_subset_extract_partial` keep such branches out (`GoodChoose`: a branch carries
+    `i18n:singular` / `i18n:plural`, optionally `py:strip`). -/
+theorem branch_directive_ids_mismatch :
+    extract Cfg.default
+      [.sub [.choose []]
+        [.start ⟨[], ['d','i','v']⟩ [],
+         .sub [.singular] [.start ⟨[], ['p']⟩ [], .text ['o','n','e'], .end_ ⟨[], ['p']⟩],
+         .sub [.plural, .other ['i','f']] [.start ⟨[], ['p']⟩ [], .text ['m','a','n','y'], .end_ ⟨[], ['p']⟩],
+         .end_ ⟨[], ['d','i','v']⟩]] =
+      .ok [⟨some ['n','g','e','t','t','e','x','t'],
+            .many [some ['o','n','e','[','1',':','m','a','n','y',']'], some ['m','a','n','y','[','1',':','m','a','n','y',']']], []⟩] := by
+  decide +kernel
 
 /-- **identity_transparent, plural choice** (`ChooseDirective.__call__` with
     `ChooseBranchDirective.__call__`).  For `pre <ts i18n:singular>Fs</ts> mid
